@@ -231,4 +231,19 @@ CLAIMS = {
                    'it has inputs.',
         'not_decided': 'that the listing of -n / -t commands equals the set a real build runs; JSON validity for non-UTF-8 bytes.',
     },
+    'C20': {
+        'design': '5.20',
+        'technique': 'who-may-write/call tables + dominance order of print sites + pairing of counters and console lock over clang CFG facts',
+        'decides': 'command output is appended to Subprocess::buf_ only by OnPipeReady, taken once before the subprocess is '
+                   'deleted, carried in the CommandCompleted result and printed at one of two alternative sites (raw / ANSI '
+                   'stripped) only when non-empty; fd 1 and 2 of a non-console child are the same pipe; the FAILED line (all '
+                   'outputs, exit code) and the command line precede the output and appear only for failures; '
+                   'started/finished/total/running have exactly their documented writers and operators, BuildEdgeStarted '
+                   'precedes the spawn and excludes phony edges, every path of FinishCommand reports BuildEdgeFinished '
+                   'regardless of the result, plan totals mirror command_edges_ under the same non-phony guard and are '
+                   'cleared between builds; the console is locked/unlocked only for console-pool edges (and unconditionally '
+                   'unlocked at BuildFinished), nothing is written while locked, held-back output keeps its explicit length '
+                   'and is flushed before the buffer is cleared.',
+        'not_decided': 'non-interleaving and counter consistency as trace properties over schedules; elision and percentage arithmetic.',
+    },
 }
